@@ -1,0 +1,21 @@
+//go:build verif
+
+// Machine-checked contracts for package pdf417 (comment-only; read by /verif/govc).
+package pdf417
+
+// ---- stage contracts used while unwinding EncodeWithColor for a fixed (number of data
+// codewords, security level): the compaction stage is abstracted to "config(n) codewords below
+// 929", the check-word computation to "2^(level+1) words below 929"; what they ARE is decided by
+// the bounded round-trip stand-in (C04) and table/pdf417/tables (generator polynomials).
+
+//@ func highlevelEncode
+//@   abstract
+//@   attr fresh_result0 config("n") 0 929
+//@   ensures result1 == nil
+
+//@ func (securitylevel).Compute
+//@   abstract
+//@   attr fresh_result (1<<(level+1)) 0 929
+//@   requires level <= 8
+//@   requires forall i int :: 0 <= i && i < len(data) ==> 0 <= data[i] && data[i] < 929
+//@   ensures len(result) == (1 << (level + 1))
